@@ -14,13 +14,14 @@
   * `std::invalid_argument` from `get_num` is the `none` result of `LineBuffer.getNum`; the three
     `try/catch` wrappers (`read_duration`, `read_parameter`, `expect_parameter`) are matches on it.
   * exceptions that are NOT `InputError` and are not caught inside `parse_line` escape as
-    `Err.foreign`:  `"invalid_argument"` from `get_track_id` (`*` without a number: D12) and from
-    `get_key_signature` in `read_note` (grace note `~` followed by a letter above `h`);
-    undefined-behaviour sites are `Err.foreign "ub:…"`:
-      - `ub:shift-negative`      `get_key_signature` with a character below `a` (`~` at end of line, `~1`)
-      - `ub:get_num-past-end`    `strtol` started beyond the terminating NUL (after `~` at end of line)
+    `Err.foreign`; undefined-behaviour sites are `Err.foreign "ub:…"`.  After the two repairs
+    (`*` without a number: fix 57aa26b; `~` not followed by a note letter: fix 3eaf999 — before
+    them `std::invalid_argument` escaped, `get_key_signature` shifted by a negative amount and
+    `strtol` was started beyond the terminating NUL) the sites still reachable from text are
       - `ub:signed-overflow`     `int` arithmetic: `expect_parameter() - 1` (`o`), `octave ± 1`,
                                  `note + octave*12`, `-read_parameter(1)` (`(`), `duration += dot`
+    (`keySigOf` keeps the general shape of `get_key_signature`'s failure modes; `read_note` is
+    only called with a letter `a`..`h`, for which they cannot occur — `Proofs/Mml`.)
   * loops: `parse_mml_track` runs on explicit fuel `buf.length + 2 − column` (every iteration
     consumes at least one column; running out is reported as `Err.foreign "MODEL:fuel"` and never
     happens — see `Proofs/Mml`); the character scans (`conditional_block_begin/end`, `'…'`,
@@ -276,7 +277,9 @@ def mmlReverseRest (duration : Nat) : P Unit := do
 
 /-- `MML_Input::mml_grace()` -/
 def mmlGrace : P Unit := do
-  let c ← readNote (← getTokenC)
+  let c ← getTokenC
+  if c < 97 || c > 104 then parseError "expected a note after '~'"
+  let c ← readNote c
   let duration ← readDuration
   mmlReverseRest duration
   trackOp (.addNote c (UInt16.ofNat duration))
@@ -524,7 +527,8 @@ def parseTag : P Unit := do
   else
     modifyS fun s => { s with song := s.song.addTag .addTagList s.tagKey line }
 
-/-- `MML_Input::get_track_id()`: −1 = no match; `std::invalid_argument` from `get_num` escapes -/
+/-- `MML_Input::get_track_id()`: −1 = no match; a `*` without a number is an input error
+(since fix 57aa26b; before, `std::invalid_argument` escaped from `parse_line`: D12) -/
 def getTrackId : P Int := do
   let c ← getC
   if 65 ≤ c && c ≤ 90 then pure (c - 65)
@@ -532,7 +536,7 @@ def getTrackId : P Int := do
   else if c == 42 then do
     match ← getNumC with
     | some v => pure v
-    | none => fail (.foreign "invalid_argument")
+    | none => parseError "expected track number"
   else do
     ungetC c
     pure (-1)
